@@ -106,7 +106,7 @@ class Run:
             elif k == "SPURIOUS":
                 self.choices.append(-2 - int(f[2]))
             elif k == "SIGARRIVE":
-                self.choices.append("sig")
+                self.choices.append(-1000 - int(f[4]) if len(f) > 4 else "sig")
             if k == "DEADLOCK":
                 self.deadlock = True
             elif k == "STEPLIMIT":
@@ -186,6 +186,8 @@ class Run:
                 out.append("p" + W)
             elif k == "FPUTS" and W is not None and f[1] == "err" and b"command timeout" in vlib.unhex(f[2]):
                 out.append("R" + W)
+            elif k == "FPUTS" and who == "S0" and f[1] == "err" and b"to cancel pending threads" in vlib.unhex(f[2]):
+                out.append("MK")      # the second notice of a first ^C: last_intr is stamped right after it
             elif k == "RSIGNAL":
                 out.append(("G" + f[1][1:]) if who == "S0" else ("t" + W))
             elif k == "DESTROY":
